@@ -1347,3 +1347,8 @@ NOT_PROVED = _np + [
     "adam/sgd_follows_published_rule assume the objective's domain condition (non-zero divisors, non-zero bases of negative powers) at every point, not only along the trajectory",
     "LM descent is unconditional for tau > 0, p >= 1 and no vanishing Jacobian column (damped normal matrix positive definite, LU solve exact by Props/C11Lu); LM convergence to the least-squares solution is still searched, not proved",
 ]
+
+# --- source tie, in-place mutation / nested loops / decision trees (tools/rs2lean.py mut=True: regenerated from /repo/src into
+# Generated/SrcC10Mut.lean and proved equal to the hand model in Props/SrcTieC10Mut.lean)
+from . import srctie
+srctie.wire_mut(globals(), 'C10')
